@@ -81,6 +81,13 @@ CHECKS.update({
          "5/C15"),
 })
 
+CHECKS.update({
+ "C19": ("differential runtime monitor: project (Arc<Router> + change-set) vs standalone analyses in sorted and permuted rule order; reported responses vs the live pipeline driven in proxy order; redirect chains vs an independent follower",
+         "For generated base rule sets, change-sets, examples, hop limits and project domains, the unit-ids, test-examples, explain and impact (add/update/delete, with and without redirect analysis) analyses computed from the existing router plus the change-set are compared (canonicalised) with the same analyses computed from scratch on the resulting rule list, in two rule orders; every reported response (status, headers, body, log decision) is compared with the live pipeline driven by the harness through the public API in proxy order, and every redirect chain with an independent follower (hops, Loop exactly when a (URL, method) repeats, TooManyHops, hops <= max_hops + 1).",
+         "Rules without sampling; <= 10 failing rules per analysis; trace node counts / empty buckets are not compared (bookkeeping the statement does not speak of), only the traced route ids; url crate for joining redirect targets.",
+         "5/C19"),
+})
+
 PENDING_REASON = "monitor under construction in this session; not claimed until its check is registered"
 
 def main():
